@@ -41,6 +41,8 @@ type DataSpec struct {
 	Array bool       `json:"array,omitempty"`
 	// Short (incr): the operand is sent as this many bytes (little-endian, cut or zero-padded) instead of 8
 	Short int `json:"short,omitempty"`
+	// FirstLast: the frame carries the data flag 0x20 (see firstOrLast)
+	FirstLast bool `json:"first_last,omitempty"`
 }
 
 func keyBytes(k int) [16]byte {
@@ -81,6 +83,15 @@ func reqClient(b [16]byte) int {
 }
 
 func (d *DataSpec) build() *protocol.LockCommandData {
+	cd := d.build0()
+	if cd != nil && d.FirstLast && len(cd.Data) >= 6 {
+		cd.Data[5] |= protocol.LOCK_DATA_FLAG_PROCESS_FIRST_OR_LAST
+		cd.DataFlag |= protocol.LOCK_DATA_FLAG_PROCESS_FIRST_OR_LAST
+	}
+	return cd
+}
+
+func (d *DataSpec) build0() *protocol.LockCommandData {
 	if d == nil {
 		return nil
 	}
